@@ -828,6 +828,13 @@ class Oracle:
                         keep = [r for r in before['rows'] if not r[0] < x]
                         if after['rows'] != keep or after['len'] != len(keep):
                             bad('table_consumption', 'table after refresh is not the points at or after now')
+                    if st1 == 2 and tck_rows and tck_rows[0][0] == 0:
+                        # enabled, before the start: the trajectory waits on the first loaded point
+                        for got, bits, lo, hi in ((after['azb'], tck_rows[0][1], lim[0], lim[1]),
+                                                  (after['elb'], tck_rows[0][2], lim[2], lim[3])):
+                            ud = microdeg(dbl(bits))
+                            if lo <= ud <= hi and abs(got - ud) > 1:
+                                bad('trajectory_before_start', 'p_Bahn %d while waiting on point %d' % (got, ud))
                     if st1 in (2, 3) and after['rows']:
                         head = after['rows'][0]
                         if (after['azn'], after['eln']) != (microdeg(dbl(head[1])), microdeg(dbl(head[2]))):
